@@ -10,4 +10,7 @@ var RandConst bool
 // TickerTicks / ReadTicksSent exist natively only so that harnesses compile; the real ticker runs.
 var TickerTicks = 3
 
+// TickerPeriodic selects the periodic ticker model of the timed runs; natively the real ticker runs.
+var TickerPeriodic bool
+
 func ReadTicksSent() int { return 1 << 30 }
